@@ -1,6 +1,6 @@
 """Units built from closure/statement slices: classify (C03), caseconv (C01,C04), display (C04,C06,C08), sortcmp (C10),
 repfilter (C13), clustersplit (C07,C01), escape (C11)."""
-import re
+import re, os
 from vx.assemble import Builder, Clause
 from vx import extract as X
 
@@ -147,6 +147,35 @@ def build_split(repo, spec_dir, canary=False):
                'cluster.rs::GraphemeCluster::from condition of the split branch', props=['C07'],
                clauses=[Clause('cluster_split.branch', 'contains_backslash ==> r', ['C07', 'C01']),
                         Clause('cluster_split.branch_marks', 'contains_combining_mark_or_unassigned_chars ==> r', ['C07', 'C01'])])
+    # the closure that decides "contains a combining mark or an unassigned/control/format/... code point": every mark (Mn, Mc, Me) and every `other` (Cc, Cf, Cs, Co, Cn)
+    # category must trigger the split.  The category enum and its two predicates are READ from the unic-ucd-category source the lock file pins.
+    import glob as _glob
+    lock = open(os.path.join(repo, 'Cargo.lock')).read()
+    vm = re.search(r'name = "unic-ucd-category"\nversion = "([^"]+)"', lock)
+    cands = _glob.glob(os.path.expanduser('~/.cargo/registry/src/*/unic-ucd-category-%s/src/category.rs' % (vm.group(1) if vm else '*')))
+    if not cands: raise X.LostAnchor('unic-ucd-category source (cargo registry)')
+    cat_src = open(cands[0]).read()
+    variants = re.findall(r'\n\s+(\w+) \{\s*\n\s+abbr => (\w+),', cat_src)
+    def abbrs(fn):
+        mm = re.search(r'pub fn %s\(&self\) -> bool \{\s*use self::abbr_names::\*;\s*matches!\(\*self, ([^)]*)\)' % fn, cat_src)
+        if not mm: raise X.LostAnchor('unic-ucd-category::GeneralCategory::%s' % fn)
+        return [x.strip() for x in mm.group(1).split('|')]
+    long_of = {a: l for l, a in variants}
+    if len(variants) < 25: raise X.LostAnchor('unic-ucd-category: GeneralCategory variants')
+    marks, others = [long_of[a] for a in abbrs('is_mark')], [long_of[a] for a in abbrs('is_other')]
+    b.log.add('R9', 'unic-ucd-category::GeneralCategory', '%d variants; is_mark = %s; is_other = %s' % (len(variants), '|'.join(marks), '|'.join(others)), 'stand-in enum with the same variants and predicates (read from the dependency source)')
+    b.emit('#[derive(PartialEq, Eq, Clone, Copy)] pub enum GeneralCategory { %s }' % ', '.join(l for l, _ in variants))
+    b.emit('pub uninterp spec fn category_of(c: char) -> GeneralCategory;')
+    b.emit('pub open spec fn cat_is_mark(g: GeneralCategory) -> bool { %s }' % ' || '.join('g is %s' % v for v in marks))
+    b.emit('pub open spec fn cat_is_other(g: GeneralCategory) -> bool { %s }' % ' || '.join('g is %s' % v for v in others))
+    b.emit('''impl GeneralCategory {
+    #[verifier::external_body] pub fn of(c: char) -> (r: GeneralCategory) ensures r == category_of(c) { unimplemented!() }
+    pub fn is_mark(&self) -> (r: bool) ensures r == cat_is_mark(*self) { matches!(*self, %s) }
+    pub fn is_other(&self) -> (r: bool) ensures r == cat_is_other(*self) { matches!(*self, %s) }
+}''' % (' | '.join('GeneralCategory::' + v for v in marks), ' | '.join('GeneralCategory::' + v for v in others)))
+    anyc, _, _ = X.block_after(gf, '.any(|c| ')
+    b.slice_fn('split_mark_or_other', 'pub fn split_mark_or_other(c: char) -> (r: bool)', '    ' + anyc, 'cluster.rs::GraphemeCluster::from closure |c| of `it.chars().any(..)`', props=['C07'],
+               clauses=[Clause('cluster_split.every_mark_and_other_category_splits', 'r == (cat_is_mark(category_of(c)) || cat_is_other(category_of(c)))', ['C01', 'C11', 'C07'])])
     gr = b.src('grapheme.rs')
     ef, _, _ = X.fn(gr, 'escape_regexp_symbols')
     st, _, _ = X.if_stmt(ef, 'if character == "\\\\"')
